@@ -46,6 +46,9 @@ theorem encodeReqC_none (v : Nat) (tracing : Bool) (stream now : Int) (g : GReq)
   unfold encodeReqC encodeReq
   split
   · rfl
+  unfold encodeReqC0 encodeReq0
+  split
+  · rfl
   · cases wBody v now g with
     | error e => rfl
     | ok body => simp only
@@ -59,8 +62,16 @@ theorem encodeReqC_some (enc : Bytes → Bytes) (v : Nat) (tracing : Bool) (stre
       bs = if compressible g then
              wHeader v (headerFlags v tracing g + 1) stream (opcode g) (enc full).length ++ enc full
            else wHeader v (headerFlags v tracing g) stream (opcode g) full.length ++ full := by
-  unfold encodeReqC at he
-  unfold encodeReq
+  have htm : tooManyG g = false := by
+    unfold encodeReqC at he
+    cases h : tooManyG g
+    · rfl
+    · simp [h] at he
+  have he : encodeReqC0 (some enc) v tracing stream now g = .ok bs := by
+    unfold encodeReqC at he; simpa [htm] using he
+  rw [encodeReq_eq0 v tracing stream now g htm]
+  unfold encodeReqC0 at he
+  unfold encodeReq0
   by_cases hnp : (payloadOf g).length > 0 ∧ v < 4
   · simp [hnp] at he
   · simp only [hnp, if_false] at he ⊢
@@ -82,7 +93,8 @@ theorem wHeader_shape (v fl : Nat) (stream : Int) (op len : Nat) (x : Bytes) :
 theorem encodeReq_shape (v : Nat) (tracing : Bool) (stream now : Int) (g : GReq) (bs : Bytes)
     (he : encodeReq v tracing stream now g = .ok bs) :
     ∃ full, bs = wHeader v (headerFlags v tracing g) stream (opcode g) full.length ++ full := by
-  unfold encodeReq at he
+  have he := (encodeReq_ok he).2
+  unfold encodeReq0 at he
   by_cases hnp : (payloadOf g).length > 0 ∧ v < 4
   · simp [hnp] at he
   · simp only [hnp, if_false] at he
